@@ -48,3 +48,90 @@ Proof.
   rewrite forward_src_eq, new_stream_src_eq. intros H.
   destruct (forward_positions text k s H) as (H1 & H2 & H3). unfold get_position_src. congruence.
 Qed.
+
+(* ------------------------------------------------------------------ TokenizeError.clone, the handler of _to_tokens *)
+
+(* the mark reported for an error at index p when options_to_items is called with offsets *)
+Theorem reraise_mark_src_eq text lo co p :
+  reraise_mark_src (error_mark text 0 0 p) lo co = error_mark text lo co p.
+Proof.
+  unfold reraise_mark_src, clone_src, error_mark. cbv zeta.
+  destruct (lo =? 0) eqn:El, (co =? 0) eqn:Ec; cbn [negb orb]; rewrite ?N.add_0_r; try reflexivity.
+  apply N.eqb_eq in El, Ec. subst. rewrite !N.add_0_r. reflexivity.
+Qed.
+
+Theorem clone_src_positions text lo co p :
+  clone_src (error_mark text 0 0 p) lo co = error_mark text lo co p.
+Proof. unfold clone_src, error_mark. cbv zeta. rewrite !N.add_0_r. reflexivity. Qed.
+
+(* ------------------------------------------------------------------ _to_tokens, options_to_items *)
+
+Definition conv (p : str * option str) : str * str :=
+  (fst p, match snd p with Some v => v | None => [] end).
+
+Lemma options_f1_map : forall todo out, options_to_items_src_f1 todo out = out ++ map conv todo.
+Proof.
+  induction todo as [|[k v] todo IH]; intros out; cbn [options_to_items_src_f1 map]; [rewrite app_nil_r; reflexivity|].
+  rewrite IH, <- app_assoc. reflexivity.
+Qed.
+
+Definition fin (m : gw (str * option str) unit) : res (list (str * str)) :=
+  let '(ps, r) := m in do _ <- r; Ok (map conv ps).
+
+Lemma gbind_assoc {T A B D} (m : gw T A) (k1 : A -> gw T B) (k2 : B -> gw T D) :
+  gbind (gbind m k1) k2 = gbind m (fun a => gbind (k1 a) k2).
+Proof.
+  destruct m as [ts [a|e]]; cbn [gbind]; [|reflexivity].
+  destruct (k1 a) as [ts1 [b|e1]]; cbn [gbind]; [|reflexivity].
+  destruct (k2 b) as [ts2 r]. rewrite app_assoc. reflexivity.
+Qed.
+
+Lemma fin_gbind {A} ts (a : A) (F : A -> gw (str * option str) unit) :
+  fin (gbind (ts, Ok a) F) = do out <- fin (F a); Ok (map conv ts ++ out).
+Proof.
+  cbn [gbind]. destruct (F a) as [ts' [u|e]]; cbn [fin bind]; [rewrite map_app; reflexivity | reflexivity].
+Qed.
+
+Definition tail_of (pending : option exn) (key_token : option str) : gw (str * option str) unit :=
+  match pending with
+  | Some e => graise e
+  | None => dog _ <- (match key_token with Some k => dog _ <- gyield (k, None); gret tt | None => gret tt end); gret tt
+  end.
+
+Lemma to_tokens_f1_eq pending : forall toks key,
+  fin (dog k <- to_tokens_src_f1 toks key; tail_of pending k) = to_items toks pending key.
+Proof.
+  induction toks as [|t toks IH]; intros key.
+  - cbn [to_tokens_src_f1]. unfold gret at 1. rewrite fin_gbind. cbn [map app].
+    destruct pending as [e|]; cbn [tail_of to_items]; [reflexivity|].
+    destruct key as [k|]; reflexivity.
+  - cbn [to_tokens_src_f1]. rewrite gbind_assoc.
+    destruct t as [v| |st v]; cbn [to_items].
+    + destruct key as [k0|].
+      * change (dog _ <- (dog _ <- gyield (k0, None); gret tt); gret (Some v)) with
+          (([(k0, @None str)], Ok (Some v)) : gw (str * option str) (option str)).
+        rewrite fin_gbind, IH. cbn [map conv fst snd app].
+        destruct (to_items toks pending (Some v)); reflexivity.
+      * change (dog _ <- gret tt; gret (Some v)) with (([], Ok (Some v)) : gw (str * option str) (option str)).
+        rewrite fin_gbind, IH. cbn [map app]. destruct (to_items toks pending (Some v)); reflexivity.
+    + unfold gret at 1. rewrite fin_gbind, IH. cbn [map app]. destruct (to_items toks pending key); reflexivity.
+    + destruct key as [k0|].
+      * change (dog _ <- gyield (k0, Some v); gret None) with
+          (([(k0, Some v)], Ok (@None str)) : gw (str * option str) (option str)).
+        rewrite fin_gbind, IH. cbn [map conv fst snd app]. reflexivity.
+      * reflexivity.
+Qed.
+
+(* the translated _to_tokens / options_to_items over the translated generator are the hand model's to_items *)
+Theorem options_to_items_src_glue text :
+  options_to_items_src text = let '(toks, pending) := tokenize_src text in to_items toks pending None.
+Proof.
+  unfold options_to_items_src, to_tokens_src. cbv zeta. destruct (tokenize_src text) as [toks pending].
+  rewrite <- (to_tokens_f1_eq pending toks None). unfold fin, tail_of.
+  destruct (dog k <- to_tokens_src_f1 toks None;
+            match pending with
+            | Some e => graise e
+            | None => dog _ <- (match k with Some k0 => dog _ <- gyield (k0, None); gret tt | None => gret tt end); gret tt
+            end) as [ps r].
+  destruct r as [u|e]; cbn [bind]; [|reflexivity]. rewrite options_f1_map. reflexivity.
+Qed.
